@@ -351,16 +351,31 @@ func (r *srvRun) next(what string) ([]byte, error) {
 			return nil, fmt.Errorf("%s: the server ended the connection (%v) after %d of %d replies", what, err, len(r.replies), len(r.b.preds))
 		}
 		ev := r.ctl.points.Load()
-		if ev == lastEv && r.unread() == 0 {
+		if ev == lastEv {
 			idle++
 		} else {
 			idle = 0
 		}
 		lastEv = ev
-		if idle >= idlePolls && !go9pQuiescent("go9p.(*Conn).recv") {
-			idle = 0 // something is still runnable inside the library: keep waiting
-		}
 		if idle >= idlePolls {
+			st := go9pState("go9p.(*Conn).recv")
+			if st == "" || (st == "parked" && r.unread() != 0) {
+				idle = 0 // something is still runnable (library or the harness's reader), or bytes are on their way: keep waiting
+				continue
+			}
+			// The library can do nothing more and the harness's reader is parked
+			// in the drained transport: whatever the server wrote is in the
+			// reader's queue by now. Take what is there before deciding.
+			f, err := r.cl.RecvRaw(pollEvery)
+			if err == nil {
+				return f, nil
+			}
+			if err != rawc.ErrTimeout {
+				return nil, fmt.Errorf("%s: the server ended the connection (%v) after %d of %d replies", what, err, len(r.replies), len(r.b.preds))
+			}
+			if st == "gone" {
+				return nil, fmt.Errorf("%s: the server's receive loop has ended with %d bytes of the stream unread and without the transport being closed; %d of %d requests were answered (not answered, leaving aside requests the implementation still holds:%s); every goroutine of the library is blocked", what, r.unread(), len(r.replies), len(r.b.preds), r.missing())
+			}
 			return nil, fmt.Errorf("%s: the server has read the whole stream and is idle, but only %d of %d requests were answered (not answered, leaving aside requests the implementation still holds:%s); every goroutine of the library is blocked and its receive loop waits for more bytes", what, len(r.replies), len(r.b.preds), r.missing())
 		}
 		if time.Since(start) > hangAfter {
@@ -520,7 +535,11 @@ func runServer(c *Case, b *built, cuts []int) (*obs, error) {
 	// earlier frame; only then are the held Twrites released.
 	r.holding = true
 	for r.replies[fenceTag] == nil {
-		f, err := r.next("before the release of the held Twrites")
+		what := "before the release of the held Twrites"
+		if c.Maxpend > 0 {
+			what = "waiting for the reply to the stream's last frame (nothing is held)"
+		}
+		f, err := r.next(what)
 		if err != nil {
 			return nil, err
 		}
